@@ -447,6 +447,27 @@ func main() {
 			ap := build(s)
 			observe(ap, s.hash, s.chainID, fmt.Sprintf("two-markers:%d", variant), false)
 		}
+		// marker and root both present but not adjacent (gap), or the root with its size/nonce first and the marker later
+		for gap := 1; gap <= 3; gap++ {
+			hash := randHash(rng)
+			root := merkleRoot(rev(hash[:]), nil, 0)
+			var sc []byte
+			sc = append(sc, rng.Bytes(rng.Intn(3))...)
+			sc = append(sc, marker...)
+			sc = append(sc, rng.Bytes(gap)...)
+			sc = append(sc, rev(root)...)
+			sc = append(sc, le32(1)...)
+			sc = append(sc, le32(uint32(rng.U64()))...)
+			observe(withScript(spec{hash: hash}, sc, 0), hash, 1224, "marker-gap-root", false)
+			var sc2 []byte
+			sc2 = append(sc2, rev(root)...)
+			sc2 = append(sc2, le32(1)...)
+			sc2 = append(sc2, le32(uint32(rng.U64()))...)
+			sc2 = append(sc2, rng.Bytes(gap)...)
+			sc2 = append(sc2, marker...)
+			sc2 = append(sc2, rng.Bytes(8)...)
+			observe(withScript(spec{hash: hash}, sc2, 0), hash, 1224, "root-then-marker", false)
+		}
 		// the root's hex occurs before the marker
 		{
 			s := spec{hash: randHash(rng), chainID: 1224, nonce: 7}
